@@ -255,11 +255,13 @@ def run_geometry(ctx, st, nrows, ncols, xll, yll, csz, cells, invalid, pts, orig
 
     # ---- neighbours
     nbs, reps = {}, []
+    held = {}   # the arrays as returned, kept alive: an answer must not change when other cells are queried later
 
     def nb_of(c):
         if c not in nbs:
             try:
-                nbs[c] = [int(v) for v in g.neighbours(c)]
+                held[c] = g.neighbours(c)
+                nbs[c] = [int(v) for v in held[c]]
             except ValueError as e:
                 nbs[c] = "err:badCell" if "c_hydrodiy_gis.neighbours returns" in str(e) else "err:other:" + str(e)
         return nbs[c]
@@ -277,6 +279,11 @@ def run_geometry(ctx, st, nrows, ncols, xll, yll, csz, cells, invalid, pts, orig
             ctx.finding("invalid_cell/not_flagged/neighbours", "an invalid cell number is given neighbours",
                         {"geom": gd, "cell": c, "got": r})
     st.add(f"nb {nrows} {ncols} {C.ilist(allcells)}", ";".join(reps), {"geom": gd, "fn": "neighbours"})
+    for c, arr in held.items():
+        if [int(v) for v in arr] != nbs[c]:
+            ctx.finding("neighbours/answer_changed_by_later_call", "the array returned by neighbours(c) changed after querying other cells",
+                        {"geom": gd, "cell": c, "first": nbs[c], "now": [int(v) for v in arr]})
+            break
     for c in cells:
         r = nb_of(c)
         if isinstance(r, str):
